@@ -37,6 +37,10 @@ StrS   == {"var", "lit", "call"}
 VC     == {"var", "call"}
 BoolCtx == {"if", "andR", "orR", "bang", "eqL"}
 Stmt    == {"stmt"}
+\* an if/else-if chain whose branches jump: inside a switch case without a loop around it (an unlabeled break
+\* leaves the enclosing switch - after a rewrite into a tagged switch it would leave the new one), inside a loop
+\* (break / continue aim at the loop); statements follow the chain in the same clause / loop body
+StmtJ   == {"stmt", "swcase_break", "loop_break", "loop_continue"}
 
 SR(id, check, slots, ctxs, reps) == [id |-> id, check |-> check, slots |-> slots, ctxs |-> ctxs, reps |-> reps]
 S(id, check, slots, ctxs) == SR(id, check, slots, ctxs, << >>)
@@ -90,11 +94,11 @@ MCShapes == {
   S("qf1001_or2",  "QF1001", <<B(BoolE), B(BoolE)>>, BoolCtx),
   S("qf1001_and3", "QF1001", <<B(Bool3), B(Bool3), B(Bool3)>>, BoolCtx),
   SR("qf1002",      "QF1002", <<I(IntS), I(IntS)>>, Stmt, <<R("tag", "int", 3, 0, IntVars)>>),
-  SR("qf1003",      "QF1003", <<I(IntS), I(IntS)>>, Stmt, <<R("tag", "int", 4, 0, IntVars)>>),
+  SR("qf1003",      "QF1003", <<I(IntS), I(IntS)>>, StmtJ, <<R("tag", "int", 4, 0, IntVars)>>),
   SR("qf1002_str",  "QF1002", <<T(PlainS), T(PlainS)>>, Stmt, <<R("tag", "str", 3, 0, StrVars)>>),
-  SR("qf1003_str",  "QF1003", <<T(PlainS), T(PlainS)>>, Stmt, <<R("tag", "str", 4, 0, StrVars)>>),
+  SR("qf1003_str",  "QF1003", <<T(PlainS), T(PlainS)>>, StmtJ, <<R("tag", "str", 4, 0, StrVars)>>),
   SR("qf1002_bool", "QF1002", <<B({"var"}), B({"var"})>>, Stmt, <<R("tag", "bool", 3, 0, BoolVars)>>),
-  SR("qf1003_bool", "QF1003", <<B({"var"}), B({"var"})>>, Stmt, <<R("tag", "bool", 4, 0, BoolVars)>>),
+  SR("qf1003_bool", "QF1003", <<B({"var"}), B({"var"})>>, StmtJ, <<R("tag", "bool", 4, 0, BoolVars)>>),
   S("qf1004",    "QF1004", <<T(VC), T(VC), T(VC)>>, Stmt),
   S("qf1005_sq",   "QF1005", <<F({"var", "call", "add"})>>, {"stmt", "div", "neg"}),
   S("qf1005_cube", "QF1005", <<F({"var", "call", "add"})>>, {"stmt", "div", "neg"}),
